@@ -2,21 +2,23 @@
 """Copy verified seeded changes from /tmp/seed/<Cxx>/ into /verif/seeded/<Cxx>-<X>/ (patch.diff, demo.py, meta.json).
 Reads /tmp/seed/verify*.txt (my own verification runs) and /tmp/seed/vs*.txt (my checks run against each seed)."""
 import glob, json, os, re, shutil, sys
+ROOT = os.environ.get("SEED_ROOT", "/tmp/seed")
+SUFFIX = {"A": os.environ.get("SEED_A", "A"), "B": os.environ.get("SEED_B", "B")}
 ver, vs = {}, {}
-for f in sorted(glob.glob("/tmp/seed/verify*.txt")):
+for f in sorted(glob.glob(ROOT + "/verify*.txt")):
     for line in open(f):
         m = re.match(r"SEED (C\d+)/([AB]): demo clean rc=(\d+), mutated rc=(\d+); tests: (.*?); unexpected failures: (.*)", line)
         if m:
             ver[(m[1], m[2])] = {"demo_clean_rc": int(m[3]), "demo_mutated_rc": int(m[4]), "tests": m[5], "unexpected_failures": m[6].strip()}
-for f in sorted(glob.glob("/tmp/seed/vs*.txt")):
+for f in sorted(glob.glob(ROOT + "/vs*.txt")):
     for line in open(f):
         m = re.match(r"SEED (C\d+)/([AB]) vs (C\d+): (CAUGHT|MISSED|ERROR)(.*)", line)
         if m:
             vs.setdefault((m[1], m[2]), {})[m[3]] = (m[4], m[5].strip()[:200])      # later files override earlier ones
 for (p, x), v in sorted(ver.items()):
     ok = v["demo_clean_rc"] == 0 and v["demo_mutated_rc"] != 0 and v["unexpected_failures"] == "none"
-    src = f"/tmp/seed/{p}"
-    dst = f"/verif/seeded/{p}-{x}"
+    src = f"{ROOT}/{p}"
+    dst = f"/verif/seeded/{p}-{SUFFIX[x]}"
     if not ok:
         print("REJECTED", p, x, v)
         continue
